@@ -145,13 +145,16 @@ func (w *rWorld) apply(op rOp) (ret string, applicable bool) {
 		switch op.Op {
 		case "New":
 			res := newRes(op.Impl, op.TName, op.Fields, w.km)
+			if op.Impl == "soft" && op.TName == "" && len(op.Fields) == 0 {
+				res = &jsonapi.SoftResource{} // no type at all: the zero value of the Go type
+			}
 			if op.Impl == "soft" && w.built && op.TName != "" {
 				// a soft resource over a type that BuildType made from the struct with the same fields
 				bt, err := jsonapi.BuildType(reflect.New(structType(op.TName, op.Fields, w.km)).Interface())
 				must(err)
 				res = &jsonapi.SoftResource{Type: &bt}
 			}
-			if sr, ok := res.(*jsonapi.SoftResource); ok && w.noFrom {
+			if sr, ok := res.(*jsonapi.SoftResource); ok && w.noFrom && sr.Type != nil {
 				for k, r := range sr.Type.Rels {
 					r.FromType = ""
 					sr.Type.Rels[k] = r
